@@ -14,7 +14,7 @@ Inductive ftree :=
 | FFence (ch : Z) (n : nat) (content : list sline)      (* fence ch^n, the content lines, the same fence *)
 | FQuote (ts : list ftree)
 | FItem (mk : marker) (pad : nat) (ts : list ftree)      (* a list of one item; or the last item of a list *)
-| FMore (mk : marker) (pad : nat) (ts : list ftree) (next : ftree)   (* an item, a blank line, and the rest of the same list (FItem or FMore) *)
+| FMore (mk : marker) (pad : nat) (ts : list ftree) (bl : bool) (next : ftree)   (* an item, a blank line if bl, and the rest of the same list (FItem or FMore) *)
 | FHead (lv : nat) (c : Z) (body : str)                  (* an ATX heading: lv hashes, a space, the title c :: body *)
 | FRule (c : Z) (n : nat)                                (* a thematic break: 3 + n times the character c *)
 | FEm (c0 : Z) (pre : str) (ch : Z) (double : bool) (w post : str).   (* a one-line paragraph: c0 :: pre, a run of ch, w, the run again, post *)
@@ -50,7 +50,7 @@ Fixpoint spell (t : ftree) : list sline :=
   | FFence ch n content => SLine 0 ch (repeat ch (n - 1)) :: content ++ [SLine 0 ch (repeat ch (n - 1))]
   | FQuote ts => map quote_s (join_blank (map spell ts))
   | FItem mk pad ts => item_lines mk pad (join_blank (map spell ts))
-  | FMore mk pad ts next => item_lines mk pad (join_blank (map spell ts)) ++ SBlank :: spell next
+  | FMore mk pad ts bl next => item_lines mk pad (join_blank (map spell ts)) ++ (if bl then [SBlank] else []) ++ spell next
   | FHead lv c body => [SLine 0 35 (repeat 35 (lv - 1) ++ 32 :: c :: body)]
   | FRule c n => [SLine 0 c (repeat c (S (S n)))]
   | FEm c0 pre ch double w post => [SLine 0 c0 (em_body pre ch double w post)]
@@ -79,12 +79,13 @@ Section Mode.
     | FQuote ts => PQuote ln (seq ln ts)
     | FItem mk pad ts =>
       PList ln [PItem ln (seq ln ts) (negb md && (1 <? Z.of_nat (length ts))) 0 (Z.of_nat (length (marker_str mk) + pad)) (marker_str mk)]
-    | FMore mk pad ts next =>
-      (* the blank line after a non-last item belongs to the item: it makes it loose (or is its last child, a BlankLine) *)
+    | FMore mk pad ts bl next =>
+      (* a blank line after an item that is not the last belongs to the item: it makes it loose (or is its last child, a BlankLine) *)
       let h := Z.of_nat (length (item_lines mk pad (join_blank (map spell ts)))) in
-      match pre_of (ln + h + 1) next with
+      match pre_of (ln + h + (if bl then 1 else 0)) next with
       | PList _ items =>
-        PList ln (PItem ln (seq ln ts ++ blank_entry (ln + h)) (negb md) 0 (Z.of_nat (length (marker_str mk) + pad)) (marker_str mk) :: items)
+        PList ln (PItem ln (seq ln ts ++ (if bl then blank_entry (ln + h) else []))
+                        (if bl then negb md else negb md && (1 <? Z.of_nat (length ts))) 0 (Z.of_nat (length (marker_str mk) + pad)) (marker_str mk) :: items)
       | other => other
       end
     | FHead lv c body => PHeading ln (Z.of_nat lv) (c :: body) []
@@ -104,7 +105,7 @@ Fixpoint st_after (st : pstate) (t : ftree) : pstate :=
   | FPara _ _ _ | FFence _ _ _ | FHead _ _ _ | FRule _ _ | FEm _ _ _ _ _ _ => st
   | FQuote _ => mkPs true
   | FItem _ _ ts => fold_left st_after ts st
-  | FMore _ _ ts next => st_after (fold_left st_after ts st) next
+  | FMore _ _ ts _ next => st_after (fold_left st_after ts st) next
   end.
 Definition st_seq (st : pstate) (ts : list ftree) : pstate := fold_left st_after ts st.
 
@@ -112,8 +113,8 @@ Fixpoint depth (t : ftree) : nat :=
   match t with
   | FPara _ _ _ | FFence _ _ _ | FHead _ _ _ | FRule _ _ | FEm _ _ _ _ _ _ => 0%nat
   | FQuote ts | FItem _ _ ts => S (fold_right (fun t m => Nat.max (depth t) m) 0%nat ts)
-  | FMore _ _ ts next => Nat.max (S (fold_right (fun t m => Nat.max (depth t) m) 0%nat ts)) (depth next)
+  | FMore _ _ ts _ next => Nat.max (S (fold_right (fun t m => Nat.max (depth t) m) 0%nat ts)) (depth next)
   end.
 
 (* the marker of the first item of a list *)
-Definition marker_of (t : ftree) : marker := match t with FItem mk _ _ | FMore mk _ _ _ => mk | _ => MBullet 0 end.
+Definition marker_of (t : ftree) : marker := match t with FItem mk _ _ | FMore mk _ _ _ _ => mk | _ => MBullet 0 end.
